@@ -1106,6 +1106,29 @@ def gen_sum_case(rng, tier, form="plain", hetero=False):
                 liks=[s["lik"] for s in subs])
 
 
+def external_sum_kronecker_logdet_defect(case):
+    """True iff, on this very case, the marginal covariance is a linear_operator SumKroneckerLinearOperator whose logdet
+    (linear_operator code, outside /repo) disagrees with the dense log-determinant while its inverse quadratic form and its
+    dense matrix are consistent - i.e. the disagreement of the MLL is caused outside /repo."""
+    try:
+        r = build(case)
+        model, lik, X, y = r[0], r[1], r[2], r[3]
+        model.train(); lik.train()
+        with torch.no_grad(), gs.debug(False):
+            marg = lik(model(X))
+            L = marg.lazy_covariance_matrix
+            if type(L).__name__ != "SumKroneckerLinearOperator":
+                return False
+            Kd = L.to_dense()
+            rhs = torch.ones(*Kd.shape[:-1], 1, dtype=Kd.dtype)
+            iq, ld = L.inv_quad_logdet(inv_quad_rhs=rhs, logdet=True)
+            iq_ok = torch.allclose(iq, (rhs.transpose(-1, -2) @ torch.linalg.solve(Kd, rhs)).reshape(iq.shape), rtol=1e-8, atol=1e-8)
+            ld_bad = not torch.allclose(ld, torch.logdet(Kd).reshape(ld.shape), rtol=1e-6, atol=1e-6)
+            return bool(iq_ok and ld_bad)
+    except Exception:  # noqa: BLE001
+        return False
+
+
 def build_sum(case):
     ms = [build(s) for s in case["members"]]
     ml = gpytorch.models.IndependentModelList(*[m[0] for m in ms])
@@ -1329,6 +1352,14 @@ def run(out, ctx):
                         key = "%s:shared-module-handle:priors+added" % kind
                     if fam == "sharedprior":
                         key = "%s:shared-prior-object:priors" % kind
+                    if kind == "mll" and case.get("lik") == "multitask" and external_sum_kronecker_logdet_defect(case):
+                        # demonstrated cause outside /repo (installed linear_operator): SumKroneckerLinearOperator.logdet is wrong
+                        # when the task-noise factor is singular (rank-deficient F F^T without global noise)
+                        out.fail("external:linear_operator:SumKroneckerLinearOperator.logdet:singular-task-noise",
+                                 "installed linear_operator: inv_quad_logdet of K_x (x) B + I (x) F F^T returns a wrong log-determinant when "
+                                 "F F^T is singular (task-noise rank < number of tasks, no global noise); the exact MLL inherits it",
+                                 dict(case=_clean(case), objective=kind, batch_element=b), impl=vals[b], model=float(d["value"]))
+                        break
                     out.fail(key, "%s differs from its dense definition" % ("exact MLL" if kind == "mll" else "LOO pseudo-likelihood"),
                              dict(case=_clean(case), objective=kind, batch_element=b), impl=vals[b], model=float(d["value"]))
                     break
